@@ -50,8 +50,8 @@ def rule_phase(chk: Check, model, rid: str):
             a, b = b, a
         if a[0] == "list" and len(a[1]) == 1 and T.const_value(a[1][0]) == 0 and b[0] == "comp":
             elt, gens, conds = b[2], b[3], b[4]
-            el = [x for x in T.walk(elt) if x[0] == "elem"]
-            ok = (len(el) == 1 and elt == T.mk_attr(el[0], "phase") and gens[0][1] == T.mk_call("self.inputs.values", [])
+            el = [T.mk_index(x, T.ONE) for x in T.walk(elt) if x[0] == "elem"]
+            ok = (len(el) == 1 and elt == T.mk_attr(el[0], "phase") and gens[0][1] == T.mk_call("self.inputs.items", [])
                   and len(conds) == 1 and conds[0] == T.mk_not(T.mk_attr(el[0], "skip")))
     chk.add(rid, "BaseNode.phase", ok, f"phase = {detail}, expected max([0.0] + [c.phase for c in inputs if not c.skip])", chk.loc(fi_p))
     fi, ev, r = _ev(model, "node.BaseNode.phase_output", inline_properties=False)
